@@ -1,4 +1,5 @@
 mod canonv;
+mod dev;
 mod gen;
 mod hooks;
 mod kindv;
@@ -67,6 +68,7 @@ fn main() {
 								Some("wide") => printv::replay_wide(&mut rep, &rec),
 								Some("print") => printv::replay_print(&mut rep, &rec),
 								Some("macro") => macros.push(rec.clone()),
+								Some("de") => dev::replay_de(&mut rep, &rec),
 								Some("sj") => serdev::replay_sj(&mut rep, &rec),
 								Some("ser") => serdev::replay_ser(&mut rep, &rec),
 								Some("uneq") => unordv::replay_uneq(&mut rep, &rec),
